@@ -245,6 +245,23 @@ def lex_disassembly(text):
   return head, toks
 
 
+def _spell(x, variant):
+  """Four hexadecimal digits for a word, as files spell them."""
+  hi, lo = (x >> 8) & 0x7F, x & 0x7F
+  if variant % 2:
+    hi |= 0 if bin(hi).count("1") % 2 else 0x80        # odd parity
+    lo |= 0 if bin(lo).count("1") % 2 else 0x80
+  s = "%02x%02x" % (hi, lo)
+  mode = (variant // 2) % 4
+  if mode == 1:
+    return s.upper()
+  if mode == 2:
+    return "".join(c.upper() if i % 2 else c for i, c in enumerate(s))
+  if mode == 3:
+    return "".join(c.upper() if i % 2 == 0 else c for i, c in enumerate(s))
+  return s
+
+
 def run(ctx):
   from ttconv.scc.line import SccLine
   from ttconv.scc.word import SccWord
@@ -293,7 +310,9 @@ def run(ctx):
       # the line as it stands in a file: the words may be separated by more than one blank, blanks may follow the tab or
       # the last word
       sep = ["  ", " ", "   "][(k // 7) % 3]
-      text_line = "00:00:00:00\t" + ("" if (k // 21) % 2 else " ") + sep.join("%04x" % x for x in ws) + (" " if (k // 42) % 2 else "")
+      # ... and are spelled with or without the odd-parity bit of each byte, in lower-case, upper-case or mixed-case digits
+      text_line = ("00:00:00:00\t" + ("" if (k // 21) % 2 else " ") + sep.join(_spell(x, k // 7 + j) for j, x in enumerate(ws))
+                   + (" " if (k // 42) % 2 else ""))
       line = SccLine.from_str(text_line)
       if line is None:
         recs.append({"kind": "dis", "ws": list(ws), "show": show, "head": 0, "toks": []})
